@@ -372,9 +372,21 @@ template <class T> struct GCell { char st = 'u'; T v = 0; };
 template <class T> using GArr = std::vector<GCell<T>>;
 static bool hasV(char st) { return st == 'v' || st == 'd'; }
 
+// distribution counters of what the final program exercises: filled by a pass of the reference interpreter
+// with RSTAT set (never during generation, where refKeyword is called on candidates)
+static std::map<std::string, long>* RSTAT = nullptr;
+static void rcount(const std::string& k, long n = 1) { if (RSTAT) (*RSTAT)[k] += n; }
+
+struct EntryInfo { int sec; int box[6]; };
+
 struct RefState {
     int nx, ny, nz;
     std::vector<char> act;
+    // bookkeeping for the counters only (no influence on the semantics)
+    std::map<std::string, EntryInfo> entered;   // array -> section / box of its last data keyword
+    std::set<std::string> regionTouched;        // arrays written by a region-keyed operation
+    bool recBoxPending = false;                 // previous keyword ended with a record box != the current box
+    int inBoxKw = -1;                           // keywords since the last BOX (-1: no BOX open)
     std::map<std::string, GArr<double>> d;
     std::map<std::string, GArr<int>> i;
     std::map<std::string, GArr<double>> gd;      // the code's global storage of `global` keywords
@@ -489,15 +501,95 @@ static bool refOperate(const std::string& fn, double al, double be, double R, do
 static const GArr<int>& refRegion(RefState& s, const std::string& name) {
     if (!INTS.count(name)) throw RefErr{};
     const auto& reg = refGetI(s, name);
-    if (!refValid(s, reg)) throw RefErr{};
+    if (!refValid(s, reg)) {
+        if (RSTAT) {
+            bool some = false;
+            for (int g = 0; g < s.n(); ++g) some = some || (s.act[g] && hasV(reg[g].st));
+            rcount(some ? "d.region.rejected-partly-defined" : "d.region.rejected-undefined");
+        }
+        throw RefErr{};
+    }
     return reg;
 }
 static bool refRegionEmpty(const RefState& s, const GArr<int>& reg, int rv) {
     for (int g = 0; g < s.n(); ++g) if (s.act[g] && reg[g].v == rv) return false;
     return true;
 }
+// counters for one region-keyed record; returns "empty among the active cells"
+static bool countRegionRec(const RefState& s, const std::string& kw, const GArr<int>& reg, int rv) {
+    const bool empty = refRegionEmpty(s, reg, rv);
+    if (!RSTAT) return empty;
+    std::set<int> vals, avals;
+    bool anyGlobal = false;
+    for (int g = 0; g < s.n(); ++g) {
+        vals.insert(reg[g].v);
+        if (s.act[g]) avals.insert(reg[g].v);
+        anyGlobal = anyGlobal || reg[g].v == rv;
+    }
+    rcount("d.region.rec." + kw);
+    rcount("d.region.distinct-values-among-active." + std::to_string(std::min<size_t>(avals.size(), 4)));
+    if (!empty) rcount("d.region.rec.nonempty");
+    else if (anyGlobal) rcount("d.region.rec.empty-among-active-only"), rcount("d.region.rec.empty-among-active-only." + kw);
+    else rcount("d.region.rec.empty-everywhere");
+    return empty;
+}
+
+static bool allDefaulted(const BoxItems& b) { for (int q = 0; q < 6; ++q) if (b.v[q]) return false; return true; }
+static bool someDefaulted(const BoxItems& b) { for (int q = 0; q < 6; ++q) if (!b.v[q]) return true; return false; }
+static bool sameBox(const RefState& a, const RefState& b) { for (int q = 0; q < 6; ++q) if (a.box[q] != b.box[q]) return false; return true; }
+static bool isGlobalBox(const RefState& s) { return s.boxSize() == s.n(); }
+
+// counters for record boxes inside one keyword (t: the keyword's private state, s: the state it started from)
+static void countRecBox(const std::string& kw, const RefState& s, const RefState& t, const BoxItems& b, size_t j) {
+    if (!RSTAT) return;
+    if (allDefaulted(b)) {
+        if (j > 0 && !sameBox(s, t)) rcount("b.rec.all-defaulted-after-boxed-record"), rcount("b.rec.all-defaulted-after-boxed-record." + kw);
+        else rcount(j == 0 ? "b.rec.all-defaulted-first" : "b.rec.all-defaulted-after-same-box");
+    } else if (someDefaulted(b)) rcount("b.rec.partially-defaulted"), rcount("b.rec.partially-defaulted." + kw);
+    else rcount("b.rec.all-six-given");
+}
+
+// counters for one data keyword: re-entry of an array
+static void countEntry(RefState& s, int sec, const std::string& name, bool isInt, const std::vector<DCell>& data) {
+    bool dflt = false;
+    for (const auto& d : data) dflt = dflt || d.st != 'v';
+    auto it = s.entered.find(name);
+    if (RSTAT && it != s.entered.end()) {
+        const std::string base = std::string("c.reentry.") + (isInt ? "int" : "dbl") + (it->second.sec == sec ? ".same-section" : ".later-section");
+        rcount(base);
+        if (dflt) rcount(base + ".with-defaults");
+        bool same = true;
+        for (int q = 0; q < 6; ++q) same = same && it->second.box[q] == s.box[q];
+        if (!same) rcount(base + ".other-box");
+        if (!same && dflt) rcount(base + ".other-box-with-defaults");
+    }
+    EntryInfo e; e.sec = sec; for (int q = 0; q < 6; ++q) e.box[q] = s.box[q];
+    s.entered[name] = e;
+}
+
+static void refKeywordBody(RefState& s, int sec, const KwOp& k);
 
 static void refKeyword(RefState& s, int sec, const KwOp& k) {
+    // does the keyword read the CURRENT box (so that a leaked record box of the keyword before would show)?
+    if (s.recBoxPending) {
+        const bool dep = k.type == KT::DATD || k.type == KT::DATI
+            || ((k.type == KT::SCAL || k.type == KT::COPY || k.type == KT::OPER) && !k.recs.empty() && allDefaulted(k.recs[0].box));
+        if (dep) rcount("b.kw-reads-box-after-boxed-records");
+        s.recBoxPending = false;
+    }
+    if (k.type == KT::BOX) { if (s.inBoxKw >= 0) rcount("b.box-span.closed-by-BOX." + std::to_string(std::min(s.inBoxKw, 4))); s.inBoxKw = 0; }
+    else if (k.type == KT::ENDBOX) { if (s.inBoxKw >= 0) rcount("b.box-span.closed-by-ENDBOX." + std::to_string(std::min(s.inBoxKw, 4))); s.inBoxKw = -1; }
+    else if (s.inBoxKw >= 0) ++s.inBoxKw;
+    if (RSTAT && !k.recs.empty()) {
+        static const char* N[] = { "BOX", "ENDBOX", "DATD", "DATI", "SCAL", "COPY", "OPERATE", "SREG", "COPYREG", "OPERATER" };
+        const std::string kn = (k.type == KT::SCAL || k.type == KT::SREG) ? k.name : N[(int) k.type];
+        rcount("b.recs." + kn + "." + std::to_string(std::min<size_t>(k.recs.size(), 4)));
+        rcount("b.recs.all." + std::to_string(std::min<size_t>(k.recs.size(), 4)));
+    }
+    refKeywordBody(s, sec, k);
+}
+
+static void refKeywordBody(RefState& s, int sec, const KwOp& k) {
     switch (k.type) {
     case KT::BOX: refUpdateBox(s, k.box); return;
     case KT::ENDBOX: s.globalBox(); return;
@@ -505,6 +597,7 @@ static void refKeyword(RefState& s, int sec, const KwOp& k) {
         const auto& info = DBL.at(k.name);
         auto& a = refGetD(s, editName(sec, k.name));
         if ((int) k.data.size() != s.boxSize()) throw RefErr{};
+        countEntry(s, sec, editName(sec, k.name), false, k.data);
         forBox(s, [&](int g, int pos) {
             const auto& dc = k.data[pos];
             if (!hasV(dc.st)) return;
@@ -518,15 +611,34 @@ static void refKeyword(RefState& s, int sec, const KwOp& k) {
                 if (dc.st == 'v' || ga[g].st == 'u') { ga[g].st = dc.st; ga[g].v = si(info, dc.d); }
             });
         }
+        if (RSTAT && sec == 0 && info.top) {
+            bool dflt = false;
+            for (const auto& d : k.data) dflt = dflt || d.st != 'v';
+            rcount("a.top.kw-in-grid");
+            if (!isGlobalBox(s)) rcount("a.top.kw-in-subbox");
+            if (dflt) rcount("a.top.kw-with-defaults");
+            if (!isGlobalBox(s) && dflt) rcount("a.top.kw-in-subbox-with-defaults");
+        }
         if (sec == 0 && info.top && !refValid(s, a)) {
             // "distribute top layer": every still undefined cell takes the deck entry of the top cell of its
             // column if that top cell is in the box — active or not, whatever the entry's status
             const int layer = s.nx * s.ny;
             std::vector<int> posOf(layer, -1);
             forBox(s, [&](int g, int pos) { if (g < layer) posOf[g] = pos; });
+            long filled = 0, underInactiveTop = 0, fromDefaulted = 0;
             for (int g = 0; g < s.n(); ++g) {
                 const int li = g % layer;
-                if (a[g].st == 'u' && posOf[li] >= 0) { a[g].st = 'd'; a[g].v = si(info, k.data[posOf[li]].d); }
+                if (a[g].st == 'u' && posOf[li] >= 0) {
+                    a[g].st = 'd'; a[g].v = si(info, k.data[posOf[li]].d);
+                    if (s.act[g]) { ++filled; if (!s.act[li]) ++underInactiveTop; if (k.data[posOf[li]].st != 'v') ++fromDefaulted; }
+                }
+            }
+            if (RSTAT) {
+                rcount("a.top.fired");
+                if (filled) rcount("a.top.fired.fills-active-cells"); else rcount(s.box[4] > 0 ? "a.top.fired.box-below-layer1" : "a.top.fired.nothing-to-fill");
+                if (underInactiveTop) rcount("a.top.fired.fills-under-inactive-top-cell");
+                if (fromDefaulted) rcount("a.top.fired.copies-defaulted-top-entry");
+                if (filled && !refValid(s, a)) rcount("a.top.fired.still-not-valid");
             }
         }
         return;
@@ -534,6 +646,7 @@ static void refKeyword(RefState& s, int sec, const KwOp& k) {
     case KT::DATI: {
         auto& a = refGetI(s, k.name);
         if ((int) k.data.size() != s.boxSize()) throw RefErr{};
+        countEntry(s, sec, k.name, true, k.data);
         forBox(s, [&](int g, int pos) {
             const auto& dc = k.data[pos];
             if (!hasV(dc.st)) return;
@@ -543,9 +656,12 @@ static void refKeyword(RefState& s, int sec, const KwOp& k) {
     }
     case KT::SCAL: {
         RefState t = s;     // the keyword works on its own copy of the box
-        for (const auto& r : k.recs) {
+        for (size_t j = 0; j < k.recs.size(); ++j) {
+            const auto& r = k.recs[j];
+            countRecBox(k.name, s, t, r.box, j);
             refUpdateBox(t, r.box);
             bool bad = false;
+            if (RSTAT && (k.name == "MINVALUE" || k.name == "MAXVALUE") && s.regionTouched.count(r.a)) rcount("d.minmax-after-region-operation");
             if (DBL.count(r.a)) {
                 const auto& info = DBL.at(r.a);
                 if (k.name != "EQUALS" && !info.mult && !t.d.count(r.a)) throw RefErr{};
@@ -565,11 +681,14 @@ static void refKeyword(RefState& s, int sec, const KwOp& k) {
             if (bad) throw RefErr{};
         }
         s.d = t.d; s.i = t.i; s.gd = t.gd;
+        s.recBoxPending = !sameBox(s, t);
         return;
     }
     case KT::COPY: {
         RefState t = s;
-        for (const auto& r : k.recs) {
+        for (size_t j = 0; j < k.recs.size(); ++j) {
+            const auto& r = k.recs[j];
+            countRecBox("COPY", s, t, r.box, j);
             refUpdateBox(t, r.box);
             bool bad = false;
             if (DBL.count(r.b)) {
@@ -594,11 +713,14 @@ static void refKeyword(RefState& s, int sec, const KwOp& k) {
             if (bad) throw RefErr{};
         }
         s.d = t.d; s.i = t.i; s.gd = t.gd;
+        s.recBoxPending = !sameBox(s, t);
         return;
     }
     case KT::OPER: {
         RefState t = s;
-        for (const auto& r : k.recs) {
+        for (size_t j = 0; j < k.recs.size(); ++j) {
+            const auto& r = k.recs[j];
+            countRecBox("OPERATE", s, t, r.box, j);
             refUpdateBox(t, r.box);
             if (!DBL.count(r.a) || !DBL.count(r.b)) throw RefErr{};
             const auto& info = DBL.at(r.a);
@@ -631,6 +753,7 @@ static void refKeyword(RefState& s, int sec, const KwOp& k) {
             if (bad) throw RefErr{};
         }
         s.d = t.d; s.i = t.i; s.gd = t.gd;
+        s.recBoxPending = !sameBox(s, t);
         return;
     }
     case KT::SREG: {
@@ -641,7 +764,8 @@ static void refKeyword(RefState& s, int sec, const KwOp& k) {
             const auto rn = refRegionName(r.rs);
             if (!rn) throw RefErr{};
             const auto reg = refRegion(s, *rn);
-            if (refRegionEmpty(s, reg, r.rv)) continue;
+            if (countRegionRec(s, k.name, reg, r.rv)) continue;
+            s.regionTouched.insert(r.a);
             const double x = (k.name == "MULTIREG") ? r.val : si(info, r.val);
             auto& a = refGetD(s, r.a);
             bool bad = false;
@@ -660,6 +784,8 @@ static void refKeyword(RefState& s, int sec, const KwOp& k) {
             const auto rn = refRegionName(r.rs);
             if (!rn) throw RefErr{};
             const auto reg = refRegion(s, *rn);
+            countRegionRec(s, "COPYREG", reg, r.rv);
+            s.regionTouched.insert(r.a);
             bool bad = false;
             if (DBL.count(r.b)) {
                 if (!s.d.count(r.b) || !refValid(s, s.d.at(r.b))) throw RefErr{};
@@ -683,10 +809,22 @@ static void refKeyword(RefState& s, int sec, const KwOp& k) {
             if (!DBL.count(r.a)) continue;
             const auto& info = DBL.at(r.a);
             refGetD(s, r.a);
-            const auto reg = refRegion(s, r.rs);
-            if (refRegionEmpty(s, reg, r.rv)) continue;
+            // code as fixed by bf5bceae1: the source array is fetched (created) BEFORE the region is looked at;
+            // an unsupported source name is rejected whether or not the region has an active cell
+            const bool srcMissing = DBL.count(r.b) && !s.d.count(r.b);
             if (!DBL.count(r.b)) throw RefErr{};
             const auto src = refGetD(s, r.b);
+            const auto reg = refRegion(s, r.rs);
+            const bool emptyReg = countRegionRec(s, "OPERATER", reg, r.rv);
+            if (RSTAT && srcMissing) {
+                bool anyGlobal = false;
+                for (int g = 0; g < s.n(); ++g) anyGlobal = anyGlobal || reg[g].v == r.rv;
+                rcount(!emptyReg ? "d.operater.source-missing.region-nonempty"
+                       : anyGlobal ? "d.operater.source-missing.region-empty-among-active-only"
+                                   : "d.operater.source-missing.region-empty-everywhere");
+            }
+            if (emptyReg) continue;
+            s.regionTouched.insert(r.a);
             auto& a = refGetD(s, r.a);
             const bool check = r.fn == "MULTIPLY" || r.fn == "POLY";
             const double al = (r.fn == "ADDX" || r.fn == "MAXLIM" || r.fn == "MINLIM") ? si(info, r.val) : r.val;
@@ -811,7 +949,14 @@ static Outcome runRef(const Case& c) {
             const int sec = PROC_ORDER[p];
             if (p == 2) refResetActnum(s);
             s.globalBox();
+            s.recBoxPending = false; s.inBoxKw = -1;
             for (const auto& k : c.sec[sec]) refKeyword(s, sec, k);
+            if (RSTAT && !isGlobalBox(s)) {
+                rcount("b.box-open-at-section-end");
+                bool later = false;
+                for (int q = p + 1; q < 5; ++q) later = later || !c.sec[PROC_ORDER[q]].empty();
+                if (later) rcount("b.box-open-at-section-end.later-section-has-keywords");
+            }
             if (sec == 1) refApplyMultipliers(s);
         }
         return refObserve(s);
@@ -835,10 +980,14 @@ struct Gen {
         return v;
     }
 
-    BoxItems randBox(const Case& c, bool allowBad) {
+    // force: -1 random, 0 all six items defaulted, 1 some (not all) items defaulted, 2 all six items given
+    BoxItems randBox(const Case& c, bool allowBad, int force = -1) {
         BoxItems b;
         const int dims[3] = { c.nx, c.ny, c.nz };
-        const int mode = rng.range(0, 9);
+        int mode = rng.range(0, 9);
+        if (force == 0) return b;
+        if (force == 1) mode = rng.range(1, 4);
+        if (force == 2) mode = 9;
         if (mode == 0) return b;                              // all defaulted
         for (int a = 0; a < 3; ++a) {
             if (mode <= 2 && rng.coin()) continue;            // some axes defaulted
@@ -848,6 +997,10 @@ struct Gen {
             if (mode == 3 && rng.coin(1, 3)) { b.v[2 * a + 1] = hi; continue; }   // only upper given
             if (mode == 4 && rng.coin(1, 3)) { b.v[2 * a] = lo; continue; }       // only lower given
             b.v[2 * a] = lo; b.v[2 * a + 1] = hi;
+        }
+        if (force == 1) {
+            if (!someDefaulted(b)) { const int a = rng.range(0, 2); b.v[2 * a + rng.range(0, 1)].reset(); if (rng.coin()) b.v[2 * a].reset(), b.v[2 * a + 1].reset(); }
+            if (allDefaulted(b)) { const int a = rng.range(0, 2); b.v[2 * a + 1] = rng.range(1, dims[a]); }
         }
         if (allowBad && rng.coin(1, 40)) {
             const int a = rng.range(0, 2);
@@ -911,7 +1064,18 @@ struct Gen {
         }
         if (w < 36) { k.type = KT::BOX; k.box = randBox(c, true); return k; }
         if (w < 41) { k.type = KT::ENDBOX; return k; }
-        const int nrec = rng.coin(2, 3) ? 1 : rng.range(1, 3);
+        const int nrec = rng.coin(1, 2) ? 1 : rng.range(2, 4);
+        // record boxes inside one keyword: after a boxed record, often a record with all six items defaulted (it
+        // reuses the box of the PREVIOUS RECORD) or a partially defaulted one (defaulted items = full extent)
+        bool prevBoxed = false;
+        auto recBox = [&](int j) {
+            BoxItems b;
+            if (j > 0 && prevBoxed && rng.coin(1, 3)) b = randBox(c, false, 0);
+            else if (j > 0 && rng.coin(1, 4)) b = randBox(c, false, 1);
+            else b = randBox(c, true);
+            if (!allDefaulted(b)) prevBoxed = true;
+            return b;
+        };
         if (w < 66) {
             k.type = KT::SCAL;
             std::vector<std::string> ops = { "EQUALS", "EQUALS", "ADD", "MULTIPLY" };
@@ -929,10 +1093,12 @@ struct Gen {
                     if (!ex.empty()) r.a = rng.pick(ex);
                 }
                 if (!isInt && rng.coin(1, 5)) r.a = rng.pick(std::vector<std::string>{ "PERMX", "PERMY", "PERMZ", "PRESSURE" });
+                // several records on the same array (other boxes) are the common use of a multi-record keyword
+                if (j > 0 && rng.coin()) { r.a = k.recs[j - 1].a; isInt = INTS.count(r.a) > 0; }
                 if (rng.coin(1, 80)) r.a = "FOOBAR";
                 r.val = isInt ? (double) rng.range(0, 4) + (rng.coin(1, 6) ? 0.5 : 0.0) : niceD(true);
                 if (isInt && rng.coin(1, 10)) r.val = -r.val;
-                r.box = randBox(c, true);
+                r.box = recBox(j);
                 k.recs.push_back(r);
             }
             return k;
@@ -945,7 +1111,8 @@ struct Gen {
                 r.b = isInt ? pickI(sec, true) : pickD(sec, true);
                 r.a = isInt ? pickI(sec, rng.coin()) : pickD(sec, rng.coin());
                 if (rng.coin(1, 50)) r.a = isInt ? pickD(sec, true) : pickI(sec, true);     // type clash
-                r.box = randBox(c, true);
+                if (j > 0 && rng.coin(2, 3)) { r.b = k.recs[j - 1].b; r.a = k.recs[j - 1].a; }
+                r.box = recBox(j);
                 k.recs.push_back(r);
             }
             return k;
@@ -961,7 +1128,8 @@ struct Gen {
                 r.fn = rng.pick(FNS);
                 if (rng.coin(1, 60)) r.fn = "NOSUCH";
                 r.val = niceD(true); r.val2 = rng.range(0, 6) / 2.0;
-                r.box = randBox(c, true);
+                r.box = recBox(j);
+                unitBias(r, s);
                 k.recs.push_back(r);
             }
             return k;
@@ -1003,14 +1171,335 @@ struct Gen {
             r.val = niceD(true); r.val2 = rng.range(0, 6) / 2.0;
             r.rv = rng.range(0, 4);
             r.rs = rng.pick(std::vector<std::string>{ "OPERNUM", "FLUXNUM", "MULTNUM", "SATNUM", "FIPNUM" });
+            unitBias(r, s);
             k.recs.push_back(r);
         }
         return k;
     }
 
+    // ---- keyword groups: several keywords generated together against an evolving reference state ----
+
+    static DCell defaultCell(const std::string& name, bool isInt) {
+        DCell d;
+        // a defaulted entry is a valid default when the keyword's data item has a default value
+        if (!isInt && (name == "PORO" || name == "PERMY" || name == "PERMZ")) { d.st = 'd'; d.d = 0.0; }
+        else if (!isInt && name.rfind("MULT", 0) == 0 && name != "MULTPV") { d.st = 'd'; d.d = 1.0; }
+        else { d.st = 'e'; d.d = 0.0; d.i = 0; }   // an empty default carries the value-initialised 0
+        return d;
+    }
+    std::vector<DCell> randData(const std::string& name, bool isInt, int n, int dnum, int dden) {
+        std::vector<DCell> v;
+        for (int j = 0; j < n; ++j) {
+            DCell d;
+            d.d = niceD(name == "DISPERC"); d.i = rng.range(1, 4);
+            if (dnum > 0 && rng.coin(dnum, dden)) d = defaultCell(name, isInt);
+            v.push_back(d);
+        }
+        return v;
+    }
+    static BoxItems fullBox(const Case& c) {
+        BoxItems b; b.v[0] = 1; b.v[1] = c.nx; b.v[2] = 1; b.v[3] = c.ny; b.v[4] = 1; b.v[5] = c.nz; return b;
+    }
+    // append k to the group and apply it to t; false when the reference interpreter rejects it
+    static bool pushKw(std::vector<KwOp>& g, RefState& t, int sec, const KwOp& k) {
+        g.push_back(k);
+        try { refKeyword(t, sec, k); return true; } catch (const RefErr&) { return false; }
+    }
+
+    // (a) the "distribute top layer" keywords of the GRID section entered in sub-boxes with defaulted entries
+    std::vector<KwOp> topGroup(const Case& c, const RefState& s) {
+        std::vector<KwOp> g;
+        RefState t = s;
+        stats["gen.attempt.group.top-layer"]++;
+        static const std::vector<std::string> TOPS = { "PORO", "PERMX", "PERMY", "PERMZ" };
+        const std::string name = rng.pick(TOPS);
+        const int rounds = rng.coin(1, 3) ? 2 : 1;
+        const int dims[3] = { c.nx, c.ny, c.nz };
+        for (int q = 0; q < rounds; ++q) {
+            if (q > 0 || rng.coin(3, 4)) {
+                KwOp b; b.type = KT::BOX;
+                for (int a = 0; a < 2; ++a) {
+                    int lo = rng.range(1, dims[a]), hi = rng.range(1, dims[a]);
+                    if (lo > hi) std::swap(lo, hi);
+                    if (rng.coin(1, 3)) { lo = 1; hi = dims[a]; }
+                    b.box.v[2 * a] = lo; b.box.v[2 * a + 1] = hi;
+                }
+                // the first box mostly starts in layer 1, a second one mostly lies below
+                int k1 = 1, k2 = rng.coin(2, 3) ? 1 : rng.range(1, c.nz);
+                if (c.nz > 1 && (q == 0 ? rng.coin(1, 4) : rng.coin(3, 4))) { k1 = rng.range(2, c.nz); k2 = rng.range(k1, c.nz); }
+                b.box.v[4] = k1; b.box.v[5] = k2;
+                if (rng.coin(1, 5)) { b.box.v[0].reset(); b.box.v[1].reset(); }     // defaulted items = full extent
+                if (!pushKw(g, t, 0, b)) return g;
+            }
+            KwOp k; k.type = KT::DATD;
+            k.name = (q == 0 || rng.coin(2, 3)) ? name : rng.pick(TOPS);
+            switch (rng.range(0, 3)) {
+            case 0: k.data = randData(k.name, false, t.boxSize(), 0, 1); break;
+            case 1: k.data = randData(k.name, false, t.boxSize(), 1, 4); break;
+            case 2: k.data = randData(k.name, false, t.boxSize(), 1, 2); break;
+            default: k.data = randData(k.name, false, t.boxSize(), 1, 1); break;     // n* : every entry defaulted
+            }
+            if (!pushKw(g, t, 0, k)) return g;
+            if (rng.coin(1, 2)) { KwOp e; e.type = KT::ENDBOX; pushKw(g, t, 0, e); }
+        }
+        return g;
+    }
+
+    // (b) BOX ... several keywords ... [ENDBOX]
+    std::vector<KwOp> boxSpanGroup(const Case& c, int sec, const RefState& s) {
+        std::vector<KwOp> g;
+        RefState t = s;
+        stats["gen.attempt.group.box-span"]++;
+        KwOp b; b.type = KT::BOX; b.box = randBox(c, false, rng.coin(1, 4) ? 1 : 2);
+        if (!pushKw(g, t, sec, b)) return g;
+        const int inner = rng.range(2, 4);
+        for (int q = 0; q < inner; ++q) {
+            for (int attempt = 0; attempt < 6; ++attempt) {
+                KwOp k = randKw(c, sec, t);
+                if (k.type == KT::BOX || k.type == KT::ENDBOX) continue;
+                RefState u = t;
+                try { refKeyword(u, sec, k); } catch (const RefErr&) { continue; }
+                g.push_back(k); t = u;
+                break;
+            }
+        }
+        if (rng.coin(2, 3)) { KwOp e; e.type = KT::ENDBOX; pushKw(g, t, sec, e); }
+        else stats["gen.attempt.group.box-span.left-open"]++;
+        return g;
+    }
+
+    // (c) the same array entered again (same or later section) with defaulted entries, often in another box
+    std::vector<KwOp> reentryGroup(const Case& c, int sec, const RefState& s) {
+        std::vector<KwOp> g;
+        RefState t = s;
+        std::vector<std::pair<std::string, bool>> ex;
+        for (const auto& n : DATA_D[sec]) if (t.d.count(editName(sec, n)) || (sec == 1 && t.d.count(n))) ex.push_back({ n, false });
+        for (const auto& n : DATA_I[sec]) if (n != "ACTNUM" && t.i.count(n)) ex.push_back({ n, true });
+        if (ex.empty()) return g;
+        stats["gen.attempt.group.re-entry"]++;
+        const auto pick = rng.pick(ex);
+        const bool boxed = rng.coin(3, 5);
+        if (boxed) { KwOp b; b.type = KT::BOX; b.box = randBox(c, false, rng.coin(1, 4) ? 1 : 2); if (!pushKw(g, t, sec, b)) return g; }
+        KwOp k; k.type = pick.second ? KT::DATI : KT::DATD; k.name = pick.first;
+        const int m = rng.range(0, 3);
+        k.data = randData(k.name, pick.second, t.boxSize(), m == 0 ? 1 : m == 1 ? 1 : m == 2 ? 2 : 1, m == 0 ? 5 : m == 1 ? 2 : m == 2 ? 3 : 1);
+        if (!pushKw(g, t, sec, k)) return g;
+        if (boxed && rng.coin()) { KwOp e; e.type = KT::ENDBOX; pushKw(g, t, sec, e); }
+        return g;
+    }
+
+    // (d) region-keyed operations on region arrays with several values, regions without active cell, sources
+    // that do not exist yet, MINVALUE/MAXVALUE afterwards
+    std::vector<KwOp> regionGroup(const Case& c, int sec, const RefState& s) {
+        std::vector<KwOp> g;
+        RefState t = s;
+        stats["gen.attempt.group.region"]++;
+        static const std::vector<std::string> FNS = { "MULTA", "POLY", "SLOG", "LOG10", "LOGE", "INV", "MULTX", "ADDX",
+                                                       "COPY", "MAXLIM", "MINLIM", "MULTP", "ABS", "MULTIPLY" };
+        const std::string letter = rng.pick(std::vector<std::string>{ "*", "F", "M", "O" });
+        const std::string reg = *refRegionName(letter);
+        auto activeVals = [&]() { std::set<int> v; if (t.i.count(reg)) for (int q = 0; q < t.n(); ++q) if (t.act[q] && hasV(t.i.at(reg)[q].st)) v.insert(t.i.at(reg)[q].v); return v; };
+        // (1) give the region array several values
+        const bool have = t.i.count(reg) && refValid(t, t.i.at(reg));
+        const bool several = have && activeVals().size() >= 2;
+        if (several ? rng.coin(1, 8) : rng.coin(9, 10)) {
+            const bool dataOk = std::count(DATA_I[sec].begin(), DATA_I[sec].end(), reg) > 0;
+            if (dataOk && rng.coin(2, 3)) {
+                if (!isGlobalBox(t)) { KwOp e; e.type = KT::ENDBOX; if (!pushKw(g, t, sec, e)) return g; }
+                KwOp k; k.type = KT::DATI; k.name = reg;
+                const int style = rng.range(0, 8);      // 0-3 values 1..3; 4-7 inactive cells carry a value of their own; 8 partly defined
+                for (int q = 0; q < t.n(); ++q) {
+                    DCell d; d.i = rng.range(1, 3);
+                    if (style >= 4 && style <= 7 && !t.act[q] && rng.coin(3, 4)) d.i = 4;
+                    if (style == 8 && rng.coin(1, 4)) d = defaultCell(reg, true);
+                    k.data.push_back(d);
+                }
+                if (style >= 4 && style <= 7) stats["gen.attempt.region-array-with-inactive-only-value"]++;
+                if (!pushKw(g, t, sec, k)) return g;
+            } else {
+                KwOp k; k.type = KT::SCAL; k.name = "EQUALS";
+                if (!rng.coin(1, 10)) { Rec r; r.a = reg; r.val = 1; r.box = fullBox(c); if (rng.coin(1, 3)) { r.box.v[2].reset(); r.box.v[3].reset(); } k.recs.push_back(r); }
+                const int extra = rng.range(1, 3);
+                for (int j = 0; j < extra; ++j) { Rec r; r.a = reg; r.val = rng.range(2, 4); r.box = randBox(c, false, rng.coin(1, 4) ? 1 : 2); k.recs.push_back(r); }
+                if (!pushKw(g, t, sec, k)) return g;
+            }
+        }
+        // (2) the region-keyed keyword
+        const std::set<int> av = activeVals();
+        std::set<int> iv;       // values carried by inactive cells only
+        if (t.i.count(reg)) for (int q = 0; q < t.n(); ++q) if (!t.act[q] && hasV(t.i.at(reg)[q].st) && !av.count(t.i.at(reg)[q].v)) iv.insert(t.i.at(reg)[q].v);
+        auto pickRv = [&]() {
+            if (!iv.empty() && rng.coin(1, 4)) return rng.pick(std::vector<int>(iv.begin(), iv.end()));
+            if (!av.empty() && rng.coin(5, 6)) return rng.pick(std::vector<int>(av.begin(), av.end()));
+            return rng.range(0, 5);
+        };
+        std::vector<std::string> exD, fullV, missing;
+        for (const auto& kv : t.d) {
+            if (kv.first.rfind(MULT_PREFIX, 0) == 0) continue;
+            exD.push_back(kv.first);
+            bool allV = true;
+            for (int q = 0; q < t.n(); ++q) if (t.act[q] && kv.second[q].st != 'v') allV = false;
+            if (allV) fullV.push_back(kv.first);
+        }
+        for (const auto& n : DBL_ORDER) if (!t.d.count(n)) missing.push_back(n);
+        static const std::vector<std::string> GLOBS = { "PERMX", "PERMY", "PERMZ", "MULTZ" };
+        const int nrec = rng.coin(1, 2) ? 1 : rng.range(2, 4);
+        const int kind = rng.range(0, 9);
+        KwOp k;
+        std::string lastTarget, lastSource;
+        if (kind <= 3) {
+            k.type = KT::SREG;
+            k.name = rng.pick(std::vector<std::string>{ "EQUALREG", "ADDREG", "MULTIREG" });
+            for (int j = 0; j < nrec; ++j) {
+                Rec r;
+                r.a = pickD(sec, rng.coin(1, 3));
+                if (k.name != "EQUALREG" && !exD.empty() && rng.coin(4, 5)) r.a = rng.pick(exD);
+                if (rng.coin(1, 5)) r.a = rng.pick(GLOBS);
+                if (j > 0 && rng.coin(1, 3)) r.a = lastTarget;
+                r.val = niceD(true); r.rv = pickRv(); r.rs = letter;
+                lastTarget = r.a;
+                k.recs.push_back(r);
+            }
+        } else if (kind <= 6) {
+            k.type = KT::OPRR;
+            for (int j = 0; j < nrec; ++j) {
+                Rec r;
+                r.a = pickD(sec, rng.coin(1, 3));
+                if (rng.coin(1, 5)) r.a = rng.pick(GLOBS);
+                if (j > 0 && rng.coin(1, 3)) r.a = lastTarget;
+                r.b = (!missing.empty() && rng.coin()) ? rng.pick(missing) : (!exD.empty() ? rng.pick(exD) : pickD(sec, true));
+                r.fn = rng.pick(FNS);
+                r.val = niceD(true); r.val2 = rng.range(0, 6) / 2.0;
+                r.rv = pickRv(); r.rs = reg;
+                // the interesting case: no active cell in the region and a source array that does not exist yet
+                if (!iv.empty() && !missing.empty() && rng.coin()) { r.rv = rng.pick(std::vector<int>(iv.begin(), iv.end())); r.b = rng.pick(missing); }
+                else unitBias(r, t);
+                lastTarget = r.a; lastSource = r.b;
+                k.recs.push_back(r);
+            }
+        } else {
+            k.type = KT::CREG;
+            for (int j = 0; j < nrec; ++j) {
+                Rec r;
+                r.b = (!fullV.empty() && rng.coin(5, 6)) ? rng.pick(fullV) : pickD(sec, true);
+                r.a = pickD(sec, rng.coin());
+                if (rng.coin(1, 6)) { r.b = pickI(sec, true); r.a = pickI(sec, true); }
+                r.rv = pickRv(); r.rs = letter;
+                lastTarget = r.a;
+                k.recs.push_back(r);
+            }
+        }
+        if (!pushKw(g, t, sec, k)) return g;
+        // (3) follow-ups: a box operation that must already find the array (the OPERATER source when it was missing:
+        // it exists only if some record's region had an active cell), MINVALUE/MAXVALUE on the target
+        if (k.type == KT::OPRR && rng.coin()) {
+            KwOp f; f.type = KT::SCAL; f.name = rng.pick(std::vector<std::string>{ "ADD", "MULTIPLY" });
+            Rec r; r.a = lastSource; r.val = niceD(false); r.box = randBox(c, false);
+            f.recs.push_back(r);
+            if (!pushKw(g, t, sec, f)) return g;
+        }
+        if (sec <= 2 && DBL.count(lastTarget) && rng.coin(1, 2)) {
+            KwOp f; f.type = KT::SCAL; f.name = rng.coin() ? "MINVALUE" : "MAXVALUE";
+            Rec r; r.a = lastTarget; r.val = niceD(true); r.box = randBox(c, false);
+            f.recs.push_back(r);
+            if (rng.coin(1, 3)) { Rec r2 = r; r2.val = niceD(true); r2.box = randBox(c, false, rng.range(0, 2)); f.recs.push_back(r2); }
+            if (!pushKw(g, t, sec, f)) return g;
+        }
+        return g;
+    }
+
+    std::vector<KwOp> randGroup(const Case& c, int sec, const RefState& s) {
+        const int w = rng.range(0, 99);
+        std::vector<KwOp> g;
+        if (sec == 0 && w < 12) g = topGroup(c, s);
+        else if (w < 19) g = boxSpanGroup(c, sec, s);
+        else if (w < 27) g = reentryGroup(c, sec, s);
+        else if (w < 42) g = regionGroup(c, sec, s);
+        if (g.empty()) g.push_back(randKw(c, sec, s));
+        return g;
+    }
+
     // A keyword that the code must reject because it would read an undefined ACTIVE cell: a non-assigning
     // scalar operation (box or region form), OPERATE or COPY aimed at an existing array that still has an
     // uninitialised (or, for COPY, defaulted) active cell.
+    // OPERATE/OPERATER functions whose parameter is converted to SI (ADDX/MAXLIM/MINLIM: alpha, MULTA: beta) only show
+    // that on a unit-bearing target (PERMX/PERMY/PERMZ/PRESSURE): aim a share of the records there, with a source of
+    // the same storage kind that already has values
+    void unitBias(Rec& r, const RefState& s) {
+        if (!rng.coin(1, 4)) return;
+        std::vector<std::string> units, have;
+        for (const auto& n : DBL_ORDER) if (DBL.at(n).hasUnit) { units.push_back(n); if (s.d.count(n)) have.push_back(n); }
+        if (units.empty()) return;
+        r.a = (!have.empty() && rng.coin(3, 4)) ? rng.pick(have) : rng.pick(units);
+        std::vector<std::string> src;
+        for (const auto& kv : s.d) if (kv.first.rfind(MULT_PREFIX, 0) != 0 && isGlob(kv.first) == isGlob(r.a)) src.push_back(kv.first);
+        r.b = src.empty() ? r.a : rng.pick(src);
+        r.fn = rng.pick(std::vector<std::string>{ "ADDX", "MAXLIM", "MINLIM", "MULTA", "MULTA" });
+        if (r.val2 == 0) r.val2 = 1.5;
+        stats["gen.attempt.operate-unit-bearing-target"]++;
+    }
+
+    // An OPERATER record whose region has no ACTIVE cell is skipped BEFORE its source array is created; a following
+    // ADD/MULTIPLY/MINVALUE/MAXVALUE on that source must then still be rejected ("must already exist").
+    std::vector<KwOp> operaterThenMustExist(const Case& c, int sec, const RefState& s) {
+        std::vector<KwOp> g;
+        std::vector<std::string> srcs, regs = { "MULTNUM" };
+        for (const auto& n : DBL_ORDER) if (DBL.at(n).init && !DBL.at(n).mult && !s.d.count(n)) srcs.push_back(n);
+        if (srcs.empty()) return g;
+        for (const auto& kv : s.i) if (kv.first != "ACTNUM" && refValid(s, kv.second)) regs.push_back(kv.first);
+        KwOp k; k.type = KT::OPRR;
+        Rec r;
+        r.rs = rng.pick(regs);
+        std::set<int> av, iv;
+        if (s.i.count(r.rs)) for (int q = 0; q < s.n(); ++q) (s.act[q] ? av : iv).insert(s.i.at(r.rs)[q].v); else av.insert(1);
+        std::vector<int> cand;
+        for (int v : iv) if (!av.count(v)) cand.push_back(v);
+        r.rv = (!cand.empty() && rng.coin(2, 3)) ? rng.pick(cand) : 9;
+        r.a = pickD(sec, rng.coin()); r.b = rng.pick(srcs);
+        r.fn = rng.pick(std::vector<std::string>{ "COPY", "MULTX", "ADDX", "ABS", "MULTA" });
+        r.val = niceD(true); r.val2 = 1.0;
+        k.recs.push_back(r);
+        g.push_back(k);
+        KwOp f; f.type = KT::SCAL;
+        std::vector<std::string> ops = { "ADD", "MULTIPLY" };
+        if (sec <= 2) { ops.push_back("MINVALUE"); ops.push_back("MAXVALUE"); }
+        f.name = rng.pick(ops);
+        Rec q; q.a = r.b; q.val = niceD(false); q.box = randBox(c, false);
+        f.recs.push_back(q);
+        g.push_back(f);
+        stats["gen.attempt.targeted.operater-empty-region-then-must-exist"]++;
+        return g;
+    }
+
+    // Region-keyed operation on a region array that is only partly defined (FLUXNUM/OPERNUM have no default):
+    // must be rejected.  The array is made partly defined by an EQUALS on a sub-box when it does not exist yet.
+    std::vector<KwOp> partlyDefinedRegion(const Case& c, int sec, const RefState& s) {
+        std::vector<KwOp> g;
+        const std::string letter = rng.pick(std::vector<std::string>{ "*", "F", "O" });
+        const std::string reg = *refRegionName(letter);
+        bool some = false, all = true;
+        if (s.i.count(reg)) for (int q = 0; q < s.n(); ++q) if (s.act[q]) { const bool h = hasV(s.i.at(reg)[q].st); some = some || h; all = all && h; }
+        if (s.i.count(reg) && all) return g;
+        if (!some) {
+            if (s.n() < 2) return g;
+            KwOp k; k.type = KT::SCAL; k.name = "EQUALS";
+            Rec r; r.a = reg; r.val = rng.range(1, 3); r.box = randBox(c, false, 2);
+            k.recs.push_back(r);
+            g.push_back(k);
+        }
+        KwOp k;
+        Rec r; r.rv = rng.range(1, 3);
+        switch (rng.range(0, 2)) {
+        case 0: k.type = KT::SREG; k.name = rng.pick(std::vector<std::string>{ "EQUALREG", "ADDREG", "MULTIREG" }); r.a = pickD(sec, true); r.val = niceD(true); r.rs = letter; break;
+        case 1: k.type = KT::OPRR; r.a = pickD(sec, true); r.b = pickD(sec, true); r.fn = "ADDX"; r.val = niceD(true); r.rs = reg; break;
+        default: k.type = KT::CREG; r.b = pickD(sec, true); r.a = pickD(sec, true); r.rs = letter; break;
+        }
+        k.recs.push_back(r);
+        g.push_back(k);
+        stats["gen.attempt.targeted.partly-defined-region"]++;
+        return g;
+    }
+
     std::optional<KwOp> targetedReject(const Case& c, int sec, const RefState& s) {
         // arrays with an uninitialised active cell / with a not-deck-value active cell
         std::vector<std::string> dU, iU, dN, iN;
@@ -1085,6 +1574,21 @@ struct Gen {
         c.actnum.resize(n);
         int na = 0;
         for (auto& a : c.actnum) { a = (int) rng.below(100) < dens; na += a; }
+        // inactive cells in particular positions (on top of the random density)
+        {
+            const int layer = c.nx * c.ny;
+            switch (rng.range(0, 13)) {
+            case 0: if (c.nz > 1) { for (int l = 0; l < layer; ++l) c.actnum[l] = 0; stats["gen.shape.whole-top-layer-inactive"]++; } break;
+            case 1: case 2: if (c.nz > 1) { for (int l = 0; l < layer; ++l) if (rng.coin()) c.actnum[l] = 0; stats["gen.shape.some-top-cells-inactive"]++; } break;
+            case 3: { const int cols = rng.range(1, 2); for (int q = 0; q < cols; ++q) { const int l = (int) rng.below(layer); for (int k = 0; k < c.nz; ++k) c.actnum[l + k * layer] = 0; } stats["gen.shape.inactive-column"]++; } break;
+            case 4: c.actnum[0] = 0; stats["gen.shape.first-cell-inactive"]++; break;
+            case 5: c.actnum[n - 1] = 0; stats["gen.shape.last-cell-inactive"]++; break;
+            case 6: { for (auto& a : c.actnum) a = 0; int g = (int) rng.below(n); if (c.nz > 1 && g < layer && rng.coin()) g += layer; c.actnum[g] = 1; stats["gen.shape.one-active-cell"]++; } break;
+            default: break;
+            }
+            na = 0;
+            for (int a : c.actnum) na += a;
+        }
         if (na == 0) { c.actnum[rng.below(n)] = 1; na = 1; }
         c.writeActnum = (na != n) || rng.coin();
         stats[na == n ? "grid.allactive" : "grid.masked"]++;
@@ -1136,15 +1640,26 @@ struct Gen {
             for (int j = 0; j < count[sec] && !dead; ++j, ++done) {
                 const bool seekErr = (done == errAt);
                 for (int attempt = 0; attempt < (seekErr ? 40 : 12); ++attempt) {
-                    KwOp k = randKw(c, sec, s);
-                    if (seekErr && rng.coin(3, 4)) { if (auto tk = targetedReject(c, sec, s)) k = *tk; }
-                    if (!topLayerModelled && sec == 0 && !topSafe(k, s)) continue;
+                    // a group of keywords generated together (mostly one keyword)
+                    std::vector<KwOp> grp;
+                    if (seekErr && rng.coin(3, 4)) {
+                        if (rng.coin(1, 6)) grp = partlyDefinedRegion(c, sec, s);
+                        else if (rng.coin(1, 5)) grp = operaterThenMustExist(c, sec, s);
+                        else if (auto tk = targetedReject(c, sec, s)) grp.push_back(*tk);
+                    }
+                    if (grp.empty()) grp = randGroup(c, sec, s);
+                    if (!topLayerModelled && sec == 0) { bool safe = true; for (const auto& k : grp) safe = safe && topSafe(k, s); if (!safe) continue; }
                     RefState t = s;
                     bool ok = true;
-                    try { refKeyword(t, sec, k); } catch (const RefErr&) { ok = false; }
+                    size_t used = 0;
+                    while (ok && used < grp.size()) { try { refKeyword(t, sec, grp[used]); } catch (const RefErr&) { ok = false; } ++used; }
                     if (seekErr ? ok : (!ok && !rng.coin(1, 40))) continue;
-                    c.sec[sec].push_back(k);
-                    if (ok) s = t; else { dead = true; stats["gen.rejected-keyword"]++; stats[std::string("gen.rejected.") + (k.type == KT::SCAL || k.type == KT::SREG ? k.name : std::to_string((int) k.type))]++; }
+                    for (size_t q = 0; q < used; ++q) c.sec[sec].push_back(grp[q]);     // a rejected keyword ends the program
+                    if (ok) s = t;
+                    else {
+                        const KwOp& k = grp[used - 1];
+                        dead = true; stats["gen.rejected-keyword"]++; stats[std::string("gen.rejected.") + (k.type == KT::SCAL || k.type == KT::SREG ? k.name : std::to_string((int) k.type))]++;
+                    }
                     break;
                 }
             }
@@ -1163,6 +1678,33 @@ static void countCase(std::map<std::string, long>& st, const Case& c) {
         if (k.type == KT::OPER || k.type == KT::OPRR) for (const auto& r : k.recs) st["fn." + r.fn]++;
     }
     st["ops.total"] += ops;
+    // (a) where the inactive cells are (ACTNUM as the grid gets it from the pre-pass)
+    const int layer = c.nx * c.ny, n = layer * c.nz;
+    int nact = 0, topInactive = 0, deadColumns = 0;
+    for (int g = 0; g < n; ++g) nact += c.actnum[g] ? 1 : 0;
+    for (int l = 0; l < layer; ++l) {
+        topInactive += c.actnum[l] ? 0 : 1;
+        bool any = false;
+        for (int k = 0; k < c.nz; ++k) any = any || c.actnum[l + k * layer];
+        if (!any) ++deadColumns;
+    }
+    if (nact < n) {
+        st["a.act.masked-cases"]++;
+        if (c.nz > 1 && topInactive == layer) st["a.act.whole-top-layer-inactive"]++;
+        else if (c.nz > 1 && topInactive > 0) st["a.act.top-cell-of-some-columns-inactive"]++;
+        if (deadColumns > 0 && c.nz > 1) st["a.act.fully-inactive-column"]++;
+        if (!c.actnum[0]) st["a.act.first-global-cell-inactive"]++;
+        if (!c.actnum[n - 1]) st["a.act.last-global-cell-inactive"]++;
+        if (nact == 1) st["a.act.only-one-active-cell"]++;
+    }
+}
+
+// distribution of what the final program exercises: one pass of the reference interpreter with the counters on
+static Outcome runRefCounting(std::map<std::string, long>& st, const Case& c) {
+    RSTAT = &st;
+    Outcome r = runRef(c);
+    RSTAT = nullptr;
+    return r;
 }
 
 // ---------------------------------------------------------------------------------------------
@@ -1263,6 +1805,7 @@ int main(int argc, char** argv) {
         for (int j = 0; j < n; ++j) {
             Case c = gen.randCase(true);
             countCase(sink.stats, c);
+            (void) runRefCounting(sink.stats, c);
             const std::string deck = deckText(c);
             const Outcome real = runReal(deck, c.nx * c.ny * c.nz);
             const std::string ans = showOutcome(real);
@@ -1371,7 +1914,7 @@ int main(int argc, char** argv) {
             const std::string deck = deckText(c);
             const std::string key = "case" + std::to_string(j);
             const Outcome real = runReal(deck, c.nx * c.ny * c.nz);
-            const Outcome ref = runRef(c);
+            const Outcome ref = runRefCounting(stats, c);
             // (1) sequential application on the global grid
             const std::string a = showOutcome(real), b = showOutcome(ref);
             if (a != b) {
